@@ -399,9 +399,10 @@ type memStream struct {
 	pw *memOp
 
 	// knobs
-	Defer    bool // never complete inline
-	Partial  bool // split reads/writes
-	WouldBlk bool // synchronous calls may report would-block
+	EOFWithData bool // the read that drains the last chunk reports EOF together with its bytes (tls.Conn does)
+	Defer       bool // never complete inline
+	Partial     bool // split reads/writes
+	WouldBlk    bool // synchronous calls may report would-block
 
 	Reads, Writes int
 }
@@ -417,6 +418,7 @@ var (
 	memPartialW = sim.RegStat("probe:mem-transport-partial-write")
 	memPartialR = sim.RegStat("probe:mem-transport-partial-read")
 	memDeferred = sim.RegStat("probe:mem-transport-deferred-completion")
+	memDataEOF  = sim.RegStat("probe:mem-transport-last-bytes-together-with-eof")
 )
 
 func (m *memStream) RawFd() int { return -1 }
@@ -445,6 +447,16 @@ func (m *memStream) take(b []byte) (int, error) {
 	copy(b, m.chunks[0][:n])
 	m.chunks[0] = m.chunks[0][n:]
 	m.Reads++
+	if m.EOFWithData && m.eofAfter && m.rdErr == nil {
+		rest := 0
+		for _, c := range m.chunks {
+			rest += len(c)
+		}
+		if rest == 0 {
+			m.w.Stat(memDataEOF)
+			return n, io.EOF
+		}
+	}
 	return n, nil
 }
 
